@@ -6,23 +6,37 @@ import sys
 import tempfile
 import time
 
+HANG_GUARD_S = 15.0     # wall-clock hang guard only; contenders need milliseconds
+
+
+class ScenarioHang(Exception):
+    pass
+
 
 def _fresh_dir():
     return tempfile.mkdtemp(prefix='vf_flp_')
 
 
 # ------------------------------------------------------------------ C02 ----
-def contender(path, rounds, idx, out_path, hows):
-    """Runs in a forked child: acquire / critical section / release rounds."""
+def contender(path, rounds, idx, out_path, hows, until=None, timed=(0.05, 0.002)):
+    """Runs in a forked child: acquire / critical section / release rounds.  With `until` (a path) the rounds go on
+    until that file exists (the victim has been reaped) and `rounds` more are done afterwards."""
     from aiuti.filelock import FileLock
     lock = FileLock(path)
     marker = path + '.marker'
     counter = path + '.counter'
     done = 0
     clashes = 0
+    inconsistent = 0
     waited = 0.0
     keep = []
-    for r in range(rounds):
+    r = -1
+    left = rounds
+    t_end = time.monotonic() + HANG_GUARD_S
+    while left > 0:
+        r += 1
+        if until is None or os.path.exists(until) or time.monotonic() > t_end:
+            left -= 1
         how = hows[(idx + r) % len(hows)]
         t0 = time.monotonic()
         cm = None
@@ -31,7 +45,7 @@ def contender(path, rounds, idx, out_path, hows):
         elif how == 'nb':
             ok = lock.acquire(blocking=False)
         elif how == 'timed':
-            ok = lock.acquire(timeout=0.05, poll_interval=0.002)
+            ok = lock.acquire(timeout=timed[0], poll_interval=timed[1])
         elif how == 'with':
             lock.__enter__()
             ok = True
@@ -42,6 +56,8 @@ def contender(path, rounds, idx, out_path, hows):
             ok = True
         waited += time.monotonic() - t0
         if not ok:
+            if lock.is_locked:      # the attempt reported failure, yet this object says it holds the lock
+                inconsistent += 1
             continue
         # ---- critical section: O_EXCL marker + non-atomic read-modify-write of a counter file
         try:
@@ -68,7 +84,7 @@ def contender(path, rounds, idx, out_path, hows):
         else:
             lock.release()
     with open(out_path, 'w') as f:
-        json.dump({'done': done, 'clashes': clashes, 'waited': waited}, f)
+        json.dump({'done': done, 'clashes': clashes, 'waited': waited, 'inconsistent': inconsistent, 'rounds': r + 1}, f)
 
 
 def run_contention(nprocs, rounds, hows):
@@ -124,7 +140,6 @@ SCENARIOS = ['blocking', 'timed', 'with', 'ctx', 'nested', 'contended', 'helper'
              'forked-blocking', 'forked-timed', 'forked-nested']
 # 'forked-X': a supervisor process creates the FileLock object, uses it once (one successful and one failed attempt), then
 # fork()s the victim, which runs scenario X on the inherited object; the supervisor stays alive during the probe
-HANG_GUARD_S = 15.0     # wall-clock hang guard only; contenders need milliseconds
 
 
 def _mklock(name, path, F):
@@ -294,7 +309,16 @@ def count_events(name, want_lines=False):
         os._exit(0)
     os.close(w_)
     data = b''
+    import select
+    t_end = time.monotonic() + HANG_GUARD_S
     while True:
+        left = t_end - time.monotonic()
+        if left <= 0 or not select.select([r], [], [], left)[0]:
+            # the scenario does not terminate even when it runs alone on a fresh lock file
+            os.kill(pid, signal.SIGKILL)
+            os.close(r)
+            os.waitpid(pid, 0)
+            raise ScenarioHang(name)
         b = os.read(r, 64)
         if not b:
             break
@@ -317,25 +341,34 @@ def crash_at(name, n, ncontenders=0, rounds=10):
     info_path = os.path.join(d, 'victim.json')
     # contenders first (they loop acquire / CS / release)
     cps = []
+    dead_flag = os.path.join(d, 'victim-reaped')
+    idle_r, idle_w = os.pipe()        # closed by the harness after the probe: survivors stay alive (idle) until then
     for i in range(ncontenders):
         out = os.path.join(d, 'c%d.json' % i)
         pid = os.fork()
         if pid == 0:
             code = 0
+            os.close(idle_w)
             try:
-                contender(path, rounds, i, out, ['timed', 'acquire', 'ctx'])
+                # the timed attempts' last poll sleep straddles their deadline (polls at 0, 20, 40 ms; deadline 30 ms)
+                contender(path, 3, i, out, ['timed', 'acquire', 'ctx', 'timed'], until=dead_flag, timed=(0.03, 0.02))
+                os.read(idle_r, 1)
             except BaseException:  # noqa
                 code = 3
             os._exit(code)
         cps.append((pid, out))
+    os.close(idle_r)
     forked = name.startswith('forked-')
     sup_r = sup_w = hold_r = hold_w = None
     if forked:
         sup_r, sup_w = os.pipe()      # supervisor -> harness: exit status of the victim
         hold_r, hold_w = os.pipe()    # harness -> supervisor: closed when the probe is over
     pid = os.fork()
+    if pid == 0:
+        os.close(idle_w)
     if pid == 0 and forked:
         # ---- supervisor: earlier use of the object, fork the victim, stay alive until told to go
+        os.setsid()               # own process group: the harness can remove supervisor and victim together
         os.close(sup_r)
         os.close(hold_w)
         try:
@@ -362,19 +395,39 @@ def crash_at(name, n, ncontenders=0, rounds=10):
     if forked:
         os.close(sup_w)
         os.close(hold_r)
-        b = os.read(sup_r, 1)
+        import select
+        sup_hung = not select.select([sup_r], [], [], HANG_GUARD_S)[0]
+        if sup_hung:
+            # the supervisor's own ordinary use of the lock (or the victim, un-killed) does not finish
+            try:
+                os.killpg(pid, signal.SIGKILL)
+            except ProcessLookupError:
+                pass
+            b = b'H'
+        else:
+            b = os.read(sup_r, 1)
         os.close(sup_r)
         killed = b == b'K'
+        if b == b'H':
+            os.close(hold_w)
+            os.waitpid(pid, 0)
+            res = _after_kill(F, d, path, info_path, cps, False, None, dead_flag, idle_w)
+            res['supervisor_hung'] = True
+            return res
         if b == b'':
             os.close(hold_w)
             os.waitpid(pid, 0)
+            open(dead_flag, 'w').close()
+            os.close(idle_w)
+            for cpid, _ in cps:
+                os.waitpid(cpid, 0)
             import shutil
             shutil.rmtree(d, ignore_errors=True)
             raise RuntimeError('supervisor of %s died before reporting' % name)
     else:
         _, st = os.waitpid(pid, 0)
         killed = os.WIFSIGNALED(st) and os.WTERMSIG(st) == signal.SIGKILL
-    return _after_kill(F, d, path, info_path, cps, killed, (pid, hold_w) if forked else None)
+    return _after_kill(F, d, path, info_path, cps, killed, (pid, hold_w) if forked else None, dead_flag, idle_w)
 
 
 def _victim(name, n, path, info_path, F, pre):
@@ -412,31 +465,48 @@ def _victim(name, n, path, info_path, F, pre):
         os._exit(0)
 
 
-def _after_kill(F, d, path, info_path, cps, killed, supervisor):
+def _after_kill(F, d, path, info_path, cps, killed, supervisor, dead_flag, idle_w):
     info = json.load(open(info_path)) if os.path.exists(info_path) else {}
+    open(dead_flag, 'w').close()          # the victim has been reaped: contenders do their last rounds and go idle
     surv = []
     hung = False
-    deadline = time.monotonic() + HANG_GUARD_S
+    deadline = time.monotonic() + HANG_GUARD_S + 5
     for cpid, out in cps:
+        res = None
         while True:
+            if os.path.exists(out):
+                try:
+                    res = json.load(open(out))
+                    break
+                except ValueError:
+                    pass                   # being written
             p, cst = os.waitpid(cpid, os.WNOHANG)
-            if p:
+            if p:                          # died without a result
+                cps[cps.index((cpid, out))] = (None, out)
                 break
             if time.monotonic() > deadline:
                 hung = True
-                os.kill(cpid, signal.SIGKILL)
-                os.waitpid(cpid, 0)
                 break
             time.sleep(0.002)
-        surv.append(json.load(open(out)) if os.path.exists(out) else None)
-    # deterministic probe: after the victim has been reaped (and the contenders have exited) a fresh
-    # FileLock must acquire at once
+        surv.append(res)
+    # deterministic probe: after the victim has been reaped and the surviving contenders have finished their rounds
+    # (they are still alive, idle) a fresh FileLock must acquire at once
     probe = F.FileLock(path)
     t0 = time.monotonic()
     ok = probe.acquire(blocking=False)
     wait = time.monotonic() - t0
     if ok:
         probe.release()
+    os.close(idle_w)
+    for cpid, out in cps:
+        if cpid is None:
+            continue
+        if hung:
+            try:
+                os.kill(cpid, signal.SIGKILL)
+            except ProcessLookupError:
+                pass
+        os.waitpid(cpid, 0)
     if supervisor is not None:
         os.close(supervisor[1])
         os.waitpid(supervisor[0], 0)
